@@ -533,6 +533,21 @@ def _filterOutsideDomain(gridBp):
         del gridBp.gridContents[idx]
 
 
+def _checkMapReadsBackToContents(gridDesign, aMap):
+    """
+    Make sure the lattice map will be read back as the current grid contents.
+
+    Reading re-centers full Cartesian maps, so contents that are not centered on the
+    origin cannot be represented as a lattice map.
+    """
+    readBack = GridBlueprint(
+        geom=gridDesign.geom, latticeMap=str(aMap), symmetry=gridDesign.symmetry
+    )
+    readBack._readGridContentsLattice()
+    if readBack.gridContents != dict(aMap.asciiLabelByIndices):
+        raise ValueError("The lattice map would not be read back as the grid contents.")
+
+
 def saveToStream(stream, bluep, full=False, tryMap=False):
     """
     Save the blueprints to the passed stream.
@@ -600,6 +615,7 @@ def saveToStream(stream, bluep, full=False, tryMap=False):
             }
             try:
                 aMap.gridContentsToAscii()
+                _checkMapReadsBackToContents(gridDesign, aMap)
             except Exception as e:
                 runLog.warning(
                     "The `lattice map` for the current assembly arrangement cannot be written. "
